@@ -363,7 +363,8 @@ def check_dict_invariance(facts, chk, rule, tier):
     bad = []
     n = 0
     k = 5
-    base_files = [['ACCAGTCA', 'GGTNACCAG', 'TTGAC'], ['AAAAAA', 'TTTTT', 'ACGTA'], ['GATTACA', 'TGTAATC'], ['ACNNACGTTG', 'CAACG']]
+    base_files = [['ACCAGTCA', 'GGTNACCAG', 'TTGAC'], ['AAAAAA', 'TTTTT', 'ACGTA'], ['GATTACA', 'TGTAATC'], ['ACNNACGTTG', 'CAACG'],
+                  ['ACCGT', 'ACAGT'], ['ACAGT', 'ACGGT', 'ACCGT'], ['GACGTCA', 'GAAGTC', 'ACTGT']]      # self-reverse-complement arms seen with middle bases of different classes
     if tier == 'thorough':
         base_files += [['ACGTACGTAC', 'GTACG', 'CCCCCG'], ['AGAGAGA', 'TCTCT', 'GANTC']]
 
@@ -375,7 +376,7 @@ def check_dict_invariance(facts, chk, rule, tier):
             n += 1
             if ref != spec_dict([(s, None) for s in recs], k, rc):
                 bad.append((recs, rc, 'differs from the specification', ref))
-            variants = [('order', list(p)) for p in itertools.permutations(recs)][1:4]
+            variants = [('order', list(p)) for p in itertools.permutations(recs)][1:]
             variants.append(('case', [s.lower() if i % 2 == 0 else s for i, s in enumerate(recs)]))
             variants.append(('two files', None))
             if rc:
